@@ -21,8 +21,11 @@ def parse_log(path):
         if not tk:
             continue
         kind, off, ln_, ok, op = tk[0], int(tk[1]), int(tk[2]), tk[3] == '1', int(tk[4])
-        payload = bytes.fromhex(tk[8]) if len(tk) > 8 else None
-        reqs.append({'kind': kind, 'off': off, 'len': ln_, 'ok': ok, 'op': op, 'payload': payload})
+        payload = bytes.fromhex(tk[9]) if len(tk) > 9 else None
+        reqs.append({'kind': kind, 'off': off, 'len': ln_, 'ok': ok, 'op': op, 'task': int(tk[5]), 'aseq': int(tk[8]), 'payload': payload})
+    # the order in which the effects reached the file (differs from issue order when operations run concurrently);
+    # requests that were never applied had no effect
+    reqs = sorted([r for r in reqs if r['aseq'] >= 0], key=lambda r: r['aseq'])
     return reqs
 
 
@@ -101,3 +104,149 @@ def crash_images(f0, reqs, rng, budget, points=None):
                     bl = [b for b in range(p['off'] // 512, (p['off'] + p['len'] + 511) // 512) if rng.random() < 0.5]
                     apply(img, p, blocks=bl)
             yield (i, 'after request %d: block-level tearing of %d pending' % (i, k), bytes(img))
+
+
+# ---------------------------------------------------------------- discipline (coq/Model/Crash.v)
+def discipline(cid, f0, reqs, d):
+    """decode the request log into cell events (lib/cells.py), tie the decoding to the images at every sync point, and
+    run the extracted discipline check.  -> (status, dec, info)
+       'covered'        the log is disciplined: by Proofs/CrashProps.disciplined_all_crash_states_safe EVERY crash
+                        state of EVERY prefix keeps refcount >= references (not only the sampled subsets)
+       'undisciplined'  info = (event index, host cluster) of the first event that breaks the bounds
+       'undecodable'    the log leaves the class the decoder handles (info = why)
+       'tie'            the incremental decoding disagrees with a from-scratch reading of a synced image (decoder
+                        problem: the history is left to the sampled exploration)"""
+    import cells, subprocess
+    try:
+        dec = cells.decode(f0, reqs)
+    except cells.Undecodable as e:
+        return 'undecodable', None, str(e)
+    bad = cells.check_syncs(dec)
+    if bad:
+        return 'tie', dec, bad
+    p = os.path.join(d, cid + '.disc.txt')
+    open(p, 'w').write(cells.script(cid, dec))
+    out = subprocess.run('ulimit -s unlimited; exec %s disc %s' % (os.path.join(qv.VERIF, 'driver', 'qdrv'), p), shell=True,
+                         stdout=subprocess.PIPE, stderr=subprocess.DEVNULL, text=True, timeout=600).stdout
+    os.remove(p)
+    if ('%s disc=1' % cid) in out:
+        return 'covered', dec, None
+    if ('%s disc=0' % cid) not in out:
+        return 'tie', dec, 'the model driver gave no verdict'
+    ok, ei, h = cells.py_disciplined(dec)
+    if ok:
+        return 'tie', dec, 'extracted check and its re-implementation disagree'
+    return 'undisciplined', dec, (ei, h)
+
+
+def guided_images(f0, reqs, dec, ei, h):
+    """crash images aimed at the cell whose bound broke: the writes that carry a reference to host cluster h persist,
+    the writes that carry its refcount do not (and variants)"""
+    ri = dec['events'][ei][3] if ei >= 0 else -1
+    durable = bytearray(f0)
+    pending = []
+    for i, r in enumerate(reqs[:ri + 1]):
+        if not r['ok'] or r['kind'] == 'R':
+            continue
+        if r['kind'] == 'S':
+            for _, p in pending:
+                apply(durable, p)
+            pending = []
+        else:
+            pending.append((i, r))
+    if ei < 0:
+        yield (max(ri, 0), 'the initial image', bytes(durable))
+        return
+    pts = {e[3] for e in dec['events'][:ei + 1] if e[0] == 'S' and h in e[2]}
+    rcs = {e[3] for e in dec['events'][:ei + 1] if e[0] == 'R' and e[1] == h}
+    idx = [i for i, _ in pending]
+    masks = [('only the writes that reference the cluster', [i in pts for i in idx]),
+             ('everything but the writes of its refcount', [i not in rcs for i in idx]),
+             ('references without refcount writes', [(i in pts) and (i not in rcs) for i in idx]),
+             ('everything but refcount-only writes', [(i not in rcs) or (i in pts) for i in idx])]
+    seen = set()
+    for what, m in masks:
+        key = tuple(m)
+        if key in seen:
+            continue
+        seen.add(key)
+        img = bytearray(durable)
+        for keep, (_, p) in zip(m, pending):
+            if keep:
+                apply(img, p)
+        yield (ri, 'after request %d, %s persisted (host cluster %d, %d pending)' % (ri, what, h, len(pending)), bytes(img))
+
+
+def safety_finds(c, d, rng, budget, stats, max_points=None, verdict='safe'):
+    """C04's judgement of one logged history (files <cid>.lg.log / <cid>.init.img in d): discipline theorem first
+    (all crash states), then the sampled crash images under the extracted checker safeb (streamed in chunks; with
+    max_points the crash points are the requests around header / refcount-table writes plus a random sample).
+    -> [(class, case, description, image bytes)]"""
+    import cells
+    cid = c['cid']
+    lp = os.path.join(d, cid + '.lg.log')
+    ip = os.path.join(d, cid + '.init.img')
+    if not (os.path.exists(lp) and os.path.exists(ip)):
+        stats['no_log'] += 1
+        return []
+    reqs = parse_log(lp)
+    f0 = open(ip, 'rb').read()
+    dstat, dec, dinfo = discipline(cid, f0, reqs, d)
+    stats['discipline_' + dstat] += 1
+    if dstat in ('undecodable', 'tie'):
+        stats['discipline_%s: %s' % (dstat, ' '.join(str(dinfo).split()[:6]))] += 1
+    points = None
+    mods = [i for i, r in enumerate(reqs) if r['kind'] in 'WZ' and r['ok']]
+    if max_points and len(mods) > max_points:
+        h = cells.parse_header(f0)
+        hot = set()
+        if h:
+            lo, hi = h['rt_off'], h['rt_off'] + (h['rt_clusters'] << h['cb'])
+            for i in mods:
+                r = reqs[i]
+                if r['off'] < 512 or (r['off'] < hi and r['off'] + r['len'] > lo):
+                    hot.update(range(i - 6, i + 7))
+        points = (hot & set(mods)) | set(rng.sample(mods, max_points))
+
+    def gen():
+        if dstat == 'undisciplined':
+            for x in guided_images(f0, reqs, dec, dinfo[0], dinfo[1]):
+                yield (True,) + x
+        for x in crash_images(f0, reqs, rng, budget, points=points):
+            yield (False,) + x
+    finds = []
+    chunk = []
+    pts = set()
+
+    def flush():
+        paths = []
+        for j, (_, pi, desc, data) in enumerate(chunk):
+            p = os.path.join(d, '%s.cr%d.img' % (cid, j))
+            open(p, 'wb').write(data)
+            paths.append(p)
+        vd = qv.qdrv_check(paths, d)
+        for j, p in enumerate(paths):
+            v = vd.get(p, {})
+            if v.get(verdict) != '1' and not finds:
+                guided, pi, desc, data = chunk[j]
+                r = reqs[pi] if 0 <= pi < len(reqs) else {'kind': '?', 'off': 0, 'len': 0, 'op': 0}
+                finds.append(('unsafe', c, '%s (request %s %d+%d of op %d): crash image is not a safe qcow2 image: supported=%s tables=%s under=%s%s' % (
+                    desc, r['kind'], r['off'], r['len'], r['op'], v.get('supported'), v.get('tables'), v.get('under'),
+                    ' (found through the discipline check)' if guided else ''), data))
+        for p in paths:
+            os.remove(p)
+        stats['crash_images'] += len(paths)
+        del chunk[:]
+    for x in gen():
+        chunk.append(x)
+        pts.add(x[1])
+        if len(chunk) >= 128:
+            flush()
+            if finds:
+                break
+    if chunk and not finds:
+        flush()
+    stats['crash_points'] += len(pts)
+    if dstat == 'undisciplined' and not finds:
+        stats['discipline_undisciplined_without_unsafe_image'] += 1
+    return finds
